@@ -113,7 +113,9 @@ async fn startup_udp<const N: usize>(config: &ServerConfig<SslConfig>, user_mana
                         if let Err(e) = SessionCodec::encode(&codec, (content, peer_addr, session), &mut dst) {
                             error!("[udp] encode failed; error={e}")
                         } else {
-                            inbound.send_to(&dst, client_addr).await?;
+                            if let Err(e) = inbound.send_to(&dst, client_addr).await {
+                                error!("[udp] send to client failed; client={client_addr}, error={e}");
+                            }
                         }
                     } else {
                         trace!("[udp] p_s_c channel closed");
@@ -128,12 +130,23 @@ async fn startup_udp<const N: usize>(config: &ServerConfig<SslConfig>, user_mana
                             match SessionCodec::<N>::decode(&codec, &mut src) {
                                 Ok(Some((content, peer_addr, session))) => {
                                     let key = session.client_session_id;
+                                    // a failure of one association must not stop the service for the others
                                     if let Some(assoc) = net_map.get_mut(&key) {
-                                        assoc.try_send((content, peer_addr, session)).await?
+                                        if let Err(e) = assoc.try_send((content, peer_addr, session)).await {
+                                            error!("[udp] association closed, dropping it; error={e}");
+                                            net_map.remove(&key);
+                                        }
                                     } else {
-                                        let assoc = UdpAssociateContext::create(&session, client_addr, tx.clone()).await?;
-                                        assoc.try_send((content, peer_addr, session)).await?;
-                                        net_map.insert(key, assoc);
+                                        match UdpAssociateContext::create(&session, client_addr, tx.clone()).await {
+                                            Ok(assoc) => {
+                                                if let Err(e) = assoc.try_send((content, peer_addr, session)).await {
+                                                    error!("[udp] association closed; error={e}");
+                                                } else {
+                                                    net_map.insert(key, assoc);
+                                                }
+                                            }
+                                            Err(e) => error!("[udp] create association failed; error={e}"),
+                                        }
                                     }
                                 }
                                 Ok(None) => {}
